@@ -1096,6 +1096,57 @@ class Models:
                     self.I.unsupported(n, "extend with opaque iterable")
                 v.items.extend(seq)
                 return NONE
+            if attr == "__getitem__" and args:
+                self.st.effects.pop()
+                return self.get_item(v, args[0], n)
+            if attr == "__len__":
+                self.st.effects.pop()
+                return self.num_const(self.list_len(v, n))
+            if attr in ("index", "count") and v.items is not None and args:
+                self.st.effects.pop()
+                hits = [i for i, x in enumerate(v.items) if self.keys_equal(x, args[0], n)]
+                if attr == "count":
+                    return self.num_const(len(hits))
+                if not hits:
+                    self.I.raise_("ValueError", n)
+                return self.num_const(hits[0])
+            if attr == "copy" and v.items is not None:
+                self.st.effects.pop()
+                return ListV(list(v.items))
+            if v.items is not None and attr in ("pop", "remove", "insert", "clear", "reverse"):
+                # concrete lists: the operation itself
+                if attr == "pop":
+                    i_ = -1
+                    if args:
+                        if not (isinstance(args[0], Num) and self.st.norm(args[0].rf).is_const()):
+                            self.I.unsupported(n, "list.pop with a symbolic index")
+                        i_ = int(self.st.norm(args[0].rf).const_value())
+                    try:
+                        return v.items.pop(i_)
+                    except IndexError:
+                        self.I.raise_("IndexError", n)
+                if attr == "remove":
+                    for i, x in enumerate(v.items):
+                        if self.keys_equal(x, args[0], n):
+                            del v.items[i]
+                            return NONE
+                    self.I.raise_("ValueError", n)
+                if attr == "insert":
+                    if not (isinstance(args[0], Num) and self.st.norm(args[0].rf).is_const()):
+                        self.I.unsupported(n, "list.insert with a symbolic index")
+                    v.items.insert(int(self.st.norm(args[0].rf).const_value()), args[1])
+                    return NONE
+                if attr == "clear":
+                    v.items[:] = []
+                    return NONE
+                if attr == "reverse":
+                    v.items.reverse()
+                    return NONE
+            if attr == "sort" and v.items is not None:
+                srt = self.call_builtin("sorted", [ListV(list(v.items))], dict(kwargs), n)
+                if isinstance(srt, ListV) and srt.items is not None:
+                    v.items[:] = srt.items
+                    return NONE
             if attr in ("pop", "remove", "insert", "extend", "clear", "sort", "reverse"):
                 if v.items is not None:
                     self.I.unsupported(n, f"list.{attr} on concrete list")
